@@ -292,17 +292,25 @@ def predicted(work, term, tag):
 
 # ------------------------------------------------------------------ run ----
 
+PROP_FILES = ["C09probe.v", "C09probelink.v"]
+COQ_TARGETS = ["props/C09probe.vo", "props/C09probelink.vo", "corr/C09probecorr.vo"]
+
+
 def merge_obligations(work, res, ok, blog):
-    """add the theorems of props/C09probe.v to the obligations already recorded in res"""
-    before = {k: res.coverage.get(k) for k in ("obligations", "discharged", "theorems", "checker_cmd", "trusted_base")}
-    proofs_ok, pa = proof_obligations(work, res, "C09probe.v", ok, blog)
-    if before["obligations"] is not None:
-        res.coverage["obligations"] += before["obligations"]
-        res.coverage["discharged"] += before["discharged"]
-        res.coverage["theorems"] = before["theorems"] + res.coverage["theorems"]
-        res.coverage["checker_cmd"] = before["checker_cmd"] + " ; coqc props/C09probe.v"
-        res.coverage["trusted_base"] = before["trusted_base"] + [x for x in res.coverage["trusted_base"] if x not in before["trusted_base"]]
-    return proofs_ok, pa
+    """add the theorems of props/C09probe.v and props/C09probelink.v to the obligations already recorded in res"""
+    all_ok, log_txt = True, ""
+    for f in PROP_FILES:
+        before = {k: res.coverage.get(k) for k in ("obligations", "discharged", "theorems", "checker_cmd", "trusted_base")}
+        proofs_ok, pa = proof_obligations(work, res, f, ok, blog)
+        all_ok = all_ok and proofs_ok
+        log_txt += pa
+        if before["obligations"] is not None:
+            res.coverage["obligations"] += before["obligations"]
+            res.coverage["discharged"] += before["discharged"]
+            res.coverage["theorems"] = before["theorems"] + res.coverage["theorems"]
+            res.coverage["checker_cmd"] = before["checker_cmd"] + " ; coqc props/" + f
+            res.coverage["trusted_base"] = before["trusted_base"] + [x for x in res.coverage["trusted_base"] if x not in before["trusted_base"]]
+    return all_ok, log_txt
 
 
 def run_probe(tier, seed, res):
@@ -310,7 +318,7 @@ def run_probe(tier, seed, res):
     t_begin = time.time()
     work = Work("C09probe")
     try:
-        ok, blog = coq_build(["props/C09probe.vo", "corr/C09probecorr.vo"])
+        ok, blog = coq_build(COQ_TARGETS)
         proofs_ok, pa = merge_obligations(work, res, ok, blog)
         gate = coq_gate()
         if gate:
@@ -407,7 +415,7 @@ def run_probe(tier, seed, res):
             what = ("observed probe times differ from model/Ticker.v" if disagree else
                     "the harness run does not have the expected shape: " + "; ".join(anomalies[0][1]) if anomalies else
                     "harness does not build/run against the tree" if not harness_ok else
-                    "proof obligations of props/C09probe.v do not check" if not proofs_ok else "script handed to the model too short")
+                    "proof obligations of props/C09probe.v / C09probelink.v do not check" if not proofs_ok else "script handed to the model too short")
             j = disagree[0] if disagree else anomalies[0][0] if anomalies else None
             pl = payload(j, what) if j is not None else {"property": "C09", "clause": "probe cadence", "what": what, "seed": seed, "tier": tier}
             pl["broken"] = "props/C09probe.v" if (not proofs_ok and harness_ok and not disagree and not anomalies) else \
